@@ -123,6 +123,18 @@ class Prop:
             for m in mutations(v.encode(), rng, budget):
                 add('num N ' + hx(m), 'number-mutation')
                 add('guess G ' + hx(m), 'guess')
+        # 1b. bytes that are not UTF-8 inside strings (every run length up to 13, alone and after an escape): the decoders replace them
+        for n in range(1, 14):
+            for lead in (b'', b'\\n', b'a', b'\\u0041'):
+                for bad in (b'\xff', b'\x80', b'\xc3', b'\xed\xa0'):
+                    st = b'"' + lead + bad * n + b'"'
+                    add('enum ' + hx(b'[' + st + b']'), 'invalid-utf8')
+                    add('enumeq %s %s' % (hx(b'[' + st + b', 1]'), hx(b'1')), 'invalid-utf8')
+                    add('proj all ' + hx(st), 'invalid-utf8')
+                    add('proj all ' + hx(b'{' + st + b': 1}'), 'invalid-utf8')
+                    add('proj all ' + hx(b'1 // {enum: [1, ' + st + b']}'), 'invalid-utf8')
+                    add('json 0 ' + hx(b'[' + st + b']'), 'invalid-utf8')
+                    add('guess G ' + hx(st), 'invalid-utf8')
         # 2. pathological sizes
         N = 200000 if big else 20000
         D = 20000 if big else 4000       # nesting depth: Example() and the OpenAPI conversion are quadratic in it (observed, recorded in DESIGN)
